@@ -661,6 +661,8 @@ class Interp:
             if isinstance(obj, AObj):
                 obj.fields[target.attr] = v
                 obj.writes.append((target.attr, v))
+            elif isinstance(obj, Unknown):
+                self.calls_log.append(("<setattr>", [obj, target.attr, v], {}, None))
             else:
                 raise AnalysisError(f"absint: attribute store on {obj!r} at {mod.rel}:{target.lineno}")
         elif isinstance(target, ast.Subscript):
